@@ -13,9 +13,9 @@ for d in sorted(glob.glob('/verif/seeded/*/')):
     rows.append(f"| {name} | {m['property']} | {', '.join(m.get('detected_by_checks', []))} | {'a check missed it; caught after strengthening' if strengthened else 'caught'} | {summ} |")
 intro = f"""### 8.7 Seeded changes from independent sub-agents (`/verif/seeded/<name>/`)
 
-Five rounds of fresh sub-agents, each given only the text of one property and its own scratch worktree
+Six rounds of fresh sub-agents, each given only the text of one property and its own scratch worktree
 (round 2 was steered towards timing / fallback / cleanup bugs, round 3 towards boundary and combination
-bugs, rounds 4 and 5 (`R4-`, `R5-`) away from everything earlier rounds had produced: rarely seen but legal
+bugs, rounds 4 and 5 (`R4-`, `R5-`) away from everything earlier rounds had produced,\nround 6 (`R6-`) towards the code that the audit-round fixes added or reworked: rarely seen but legal
 kernel-visible states, error paths taken only after an earlier soft failure, integer widths, second
 occurrences). Every change was confirmed by `tools/seeded.sh` in a scratch worktree before being kept: the
 patch applies to `/repo` HEAD, the repository's 42 tests still pass with it, the agent's demonstration passes
